@@ -303,3 +303,306 @@ Proof.
   - destruct vs as [|v vs]; [right; apply cls_lt_mu; cbn; lia|left; reflexivity].
   - right. unfold cls_lt, lex5, sub_le in *. cbn [mu m_gen m_qn m_scope m_def]. lia.
 Qed.
+
+(* ------------------------------------------------ remove_double_negation, extend_quantifier_scope *)
+Lemma remove_double_negation_cls_dec : cls_dec remove_double_negation.
+Proof.
+  intros F. destruct F as [a|[a|g|c l r|q vs g]|c l r|q vs g]; try (left; reflexivity).
+  right. apply cls_lt_mu. cbn. lia.
+Qed.
+
+Lemma extend_quantifier_scope_cls_dec : cls_dec extend_quantifier_scope.
+Proof.
+  intros F.
+  destruct (extend_quantifier_scope_cases F)
+    as [E|[(c&q&vs&f&rhs&Hc&->&_&->)|(c&q&vs&f&lhs&Hc&->&_&->)]]; [left; exact E| |];
+    right; unfold cls_lt, lex5; cbn [mu m_gen m_qn m_scope m_def]; lia.
+Qed.
+
+(* -------------------------------------------------------------- simplify_transitive_equality *)
+Definition mu_sum (l : list formula) : nat := fold_right (fun x acc => S (mu x) + acc) 0 l.
+Lemma mu_sum_app l1 l2 : mu_sum (l1 ++ l2) = mu_sum l1 + mu_sum l2.
+Proof. unfold mu_sum. induction l1 as [|x l1 IH]; cbn [app fold_right]; [reflexivity|]. rewrite IH. lia. Qed.
+Lemma mu_fold_and' xs : forall x, mu (fold_left (fun acc e => FBin CAnd acc e) xs x) = mu x + mu_sum xs.
+Proof. unfold mu_sum. induction xs as [|y xs IH]; intros x; cbn [fold_left fold_right]; [lia|]. rewrite IH. cbn [mu mu_conn]. lia. Qed.
+Lemma mu_conjoin l : l <> [] -> S (mu (conjoin l)) = mu_sum l.
+Proof.
+  destruct l as [|x xs]; [congruence|intros _]. unfold conjoin, reduce_bin. rewrite mu_fold_and'. unfold mu_sum. cbn [fold_right]. lia.
+Qed.
+Lemma mu_conjoin_invert f : mu_sum (conjoin_invert f) = S (mu f).
+Proof.
+  induction f as [a|f IH|c l IHl r IHr|q vs f IH]; try (cbn; lia).
+  destruct c; try (cbn; lia). cbn [conjoin_invert]. rewrite mu_sum_app, IHl, IHr. cbn. lia.
+Qed.
+Lemma mu_sum_cons x l : mu_sum (x :: l) = S (mu x) + mu_sum l.
+Proof. reflexivity. Qed.
+Lemma mu_sum_filter_le (p : formula -> bool) l : mu_sum (filter p l) <= mu_sum l.
+Proof.
+  induction l as [|z l IH]; [cbn; lia|]. cbn [filter].
+  destruct (p z); rewrite !mu_sum_cons; lia.
+Qed.
+Lemma mu_sum_filter (p : formula -> bool) l x : In x l -> p x = false ->
+  mu_sum (filter p l) + S (mu x) <= mu_sum l.
+Proof.
+  induction l as [|y l IH]; [intros []|]. intros [->|Hin] Hp; cbn [filter].
+  - rewrite Hp, mu_sum_cons. pose proof (mu_sum_filter_le p l). lia.
+  - specialize (IH Hin Hp). destruct (p y); rewrite !mu_sum_cons; lia.
+Qed.
+
+Lemma ste_good_mu vars l r G :
+  ste_good vars (conjoin_invert (FBin CAnd l r)) G -> mu G < mu (FQ QExists vars (FBin CAnd l r)).
+Proof.
+  set (f := FBin CAnd l r).
+  intros (c1 & c2 & k & d & dt & inner & H1 & H2 & E1 & E2 & _ & TE & Sub & ->).
+  apply equality_comparison_true in E1. destruct E1 as [l1 [r1 ->]].
+  apply equality_comparison_true in E2. destruct E2 as [l2 [r2 ->]].
+  apply transitive_equality_spec in TE. destruct TE as (_ & _ & _ & Hdt & _).
+  assert (Hin : In (cmp_formula dt) (conjoin_invert f)) by (destruct Hdt as [->| ->]; assumption).
+  set (p := fun t : formula => negb (formula_eqb t (cmp_formula dt))) in *.
+  assert (Hp : p (cmp_formula dt) = false).
+  { unfold p. destruct (formula_eqb_spec (cmp_formula dt) (cmp_formula dt)); [reflexivity|congruence]. }
+  pose proof (mu_sum_filter p _ _ Hin Hp) as L.
+  rewrite mu_conjoin_invert in L.
+  assert (Hdt2 : 2 <= mu (cmp_formula dt)) by (unfold cmp_formula; cbn [mu mu_atomic]; apply mu_chain_pos).
+  pose proof (substitute_measure _ _ _ _ Sub) as [Lm _].
+  cbn [mu]. fold f.
+  destruct (filter p (conjoin_invert f)) as [|y ys] eqn:Ef.
+  - change (mu (conjoin [])) with 1 in Lm. change (mu_sum []) with 0 in L. lia.
+  - assert (Hne : y :: ys <> []) by discriminate.
+    pose proof (mu_conjoin _ Hne). lia.
+Qed.
+
+Lemma simplify_transitive_equality_cls_dec : cls_dec simplify_transitive_equality.
+Proof.
+  intros F. unfold simplify_transitive_equality, total.
+  destruct F as [a|g|c l r|q vs f]; cbn [simplify_transitive_equality_opt]; try (left; reflexivity).
+  destruct q; try (left; reflexivity).
+  destruct f as [a|g|c l r|q' vs' g]; try (left; reflexivity).
+  destruct c; try (left; reflexivity).
+  set (f := FBin CAnd l r). set (F := FQ QExists vs f).
+  destruct (for_break (ste_outer_body vs (conjoin_invert f)) (F, false) (enumerate (conjoin_invert f)))
+    as [s'|] eqn:L; [|left; reflexivity].
+  cbn [option_map].
+  assert (P : fst s' = F \/ ste_good vs (conjoin_invert f) (fst s')).
+  { revert L. apply (for_break_inv (fun s => fst s = F \/ ste_good vs (conjoin_invert f) (fst s))); [|left; reflexivity].
+    intros s0 x s2 b0 Hx P0. apply (ste_outer_body_inv F vs (conjoin_invert f)); auto.
+    destruct x as [j ct]. cbn [snd]. eapply in_enumerate; eauto. }
+  destruct P as [->|P]; [left; reflexivity|].
+  right. apply cls_lt_mu. apply ste_good_mu, P.
+Qed.
+
+(* ---------------------------------------------------------------- restrict_quantifier_domain *)
+Lemma filter_ne_counts ovar vars : In ovar vars -> vsort ovar = SGeneral ->
+  gen_count (filter (fun x => negb (var_eqb x ovar)) vars) < gen_count vars /\
+  List.length (filter (fun x => negb (var_eqb x ovar)) vars) < List.length vars.
+Proof.
+  intros Hin Hg. induction vars as [|v vars IH]; [destruct Hin|].
+  assert (Hle : gen_count (filter (fun x => negb (var_eqb x ovar)) vars) <= gen_count vars /\
+                List.length (filter (fun x => negb (var_eqb x ovar)) vars) <= List.length vars).
+  { clear. induction vars as [|w vars IH]; [split; reflexivity|]. cbn [filter].
+    unfold gen_count in *. destruct (negb (var_eqb w ovar)); cbn [filter List.length];
+      destruct (is_general w); cbn [List.length]; lia. }
+  cbn [filter]. destruct (var_eqb_spec v ovar) as [->|Hne]; cbn [negb].
+  - unfold gen_count in *. cbn [filter List.length]. unfold is_general at 2. rewrite Hg. cbn [sort_eqb List.length]. lia.
+  - destruct Hin as [->|Hin]; [congruence|]. specialize (IH Hin).
+    unfold gen_count in *. cbn [filter List.length]. destruct (is_general v); cbn [List.length]; lia.
+Qed.
+
+Lemma rqd_hit_measure F outer inner cond comps G q body :
+  F = FQ q outer body ->
+  (forall o i, cond o i = true -> vsort o = SGeneral) ->
+  rqd_hit F outer inner cond comps G -> cls_lt G F.
+Proof.
+  intros EF Hcond (ivar & ovar & comp & Ho & _ & Hc & _ & _ & R).
+  apply Hcond in Hc.
+  apply replacement_helper_true in R.
+  destruct R as [_ [q0 [vars0 [f0 [fvar [f' [EF' [_ [Sub ->]]]]]]]]].
+  rewrite EF in EF'. inversion EF'; subst q0 vars0 f0. subst F.
+  pose proof (substitute_measure _ _ _ _ Sub) as [L1 [L2 _]].
+  destruct (filter_ne_counts ovar outer Ho Hc) as [C1 C2].
+  unfold cls_lt, lex5. cbn [mu m_gen]. rewrite gen_count_app, app_length.
+  change (gen_count [mkvar fvar SInteger]) with 0. cbn [List.length]. lia.
+Qed.
+
+Lemma restrict_quantifier_domain_cls_dec : cls_dec restrict_quantifier_domain.
+Proof.
+  intros F. unfold restrict_quantifier_domain, total.
+  destruct F as [a|g|c l r|q outer body]; cbn [restrict_quantifier_domain_opt]; try (left; reflexivity).
+  destruct q.
+  - destruct body as [a|g|c lhs rhs|q' vs' g]; try (left; reflexivity).
+    destruct c; try (left; reflexivity).
+    destruct lhs as [a|g|c l r|q' inner inner_formula]; try (left; reflexivity).
+    destruct q'; try (left; reflexivity).
+    set (B := FBin CImp (FQ QExists inner inner_formula) rhs). set (F := FQ QForall outer B).
+    fold (cond_all inner rhs).
+    match goal with |- context [option_map fst ?x] => destruct x as [s'|] eqn:L end; [|left; reflexivity].
+    cbn [option_map].
+    assert (P : fst s' = F \/ rqd_hit F outer inner (cond_all inner rhs) (conjoin_invert inner_formula) (fst s')).
+    { revert L.
+      apply (for_break_inv (fun s => fst s = F \/
+               rqd_hit F outer inner (cond_all inner rhs) (conjoin_invert inner_formula) (fst s)));
+        [|left; reflexivity].
+      intros s0 x s2 b0 Hx P0.
+      apply (rqd_comp_body_inv F outer inner (cond_all inner rhs) (conjoin_invert inner_formula)
+               (fun s => fst s = F \/
+                  rqd_hit F outer inner (cond_all inner rhs) (conjoin_invert inner_formula) (fst s))
+               (fun G HG => or_intror HG) false s0 x s2 b0 Hx P0). }
+    destruct P as [->|P]; [left; reflexivity|right].
+    eapply (rqd_hit_measure F outer inner _ _ _ QForall B eq_refl); [|exact P].
+    intros o i H. apply cond_all_true, cond_ex_true in H. tauto.
+  - destruct body as [a|g|c lhs rhs|q' vs' g]; try (left; reflexivity).
+    destruct c; try (left; reflexivity).
+    set (B := FBin CAnd lhs rhs). set (F := FQ QExists outer B).
+    set (cts := conjoin_invert lhs ++ conjoin_invert rhs).
+    match goal with |- context [option_map fst ?x] => destruct x as [s'|] eqn:L end; [|left; reflexivity].
+    cbn [option_map].
+    assert (P : fst s' = F \/ rqd_hit_ex F outer cts (fst s')).
+    { revert L. apply (for_break_inv (fun s => fst s = F \/ rqd_hit_ex F outer cts (fst s))); [|left; reflexivity].
+      intros s0 x s2 b0 Hx P0. apply (rqd_ct_body_inv F outer cts s0 x s2 b0 Hx P0). }
+    destruct P as [->|[inner [inner_formula [_ P]]]]; [left; reflexivity|right].
+    eapply (rqd_hit_measure F outer inner _ _ _ QExists B eq_refl); [|exact P].
+    intros o i H. apply cond_ex_true in H. tauto.
+Qed.
+
+(* ------------------------------------------------------------------------------ the portfolio *)
+Lemma CLASSIC_cls_dec : Forall cls_dec CLASSIC.
+Proof.
+  unfold CLASSIC. repeat (apply Forall_cons || apply Forall_nil).
+  - exact remove_double_negation_cls_dec.
+  - exact substitute_defined_variables_cls_dec.
+  - exact restrict_quantifier_domain_cls_dec.
+  - exact extend_quantifier_scope_cls_dec.
+  - exact simplify_transitive_equality_cls_dec.
+Qed.
+Lemma INTUITIONISTIC_cls_dec : Forall cls_dec INTUITIONISTIC.
+Proof. eapply Forall_impl; [|apply INTUITIONISTIC_decreasing]. intros r. apply decreasing_cls_dec. Qed.
+Lemma portfolio_classic_cls_dec : Forall cls_dec portfolio_classic.
+Proof.
+  unfold portfolio_classic, HT. apply Forall_app; split; [apply INTUITIONISTIC_cls_dec|].
+  apply Forall_app; split; [constructor|apply CLASSIC_cls_dec].
+Qed.
+
+(* one pass of a portfolio of decreasing rewrites changes nothing or decreases the tuple *)
+Theorem pass_cls_dec rs : Forall cls_dec rs -> cls_dec (apply (compose rs)).
+Proof. intros H. apply apply_cls_dec, compose_cls_dec, H. Qed.
+
+(* ------------------------------------------------------------------ bounds and the rank *)
+Lemma m_gen_le_mu F : m_gen F <= mu F.
+Proof.
+  induction F as [a|f IH|c l IHl r IHr|q vs f IH]; cbn [m_gen mu]; try lia.
+  pose proof (gen_count_le vs). lia.
+Qed.
+Lemma m_qn_le_mu F : m_qn F <= mu F.
+Proof. induction F as [a|f IH|c l IHl r IHr|q vs f IH]; cbn [m_qn mu]; lia. Qed.
+Lemma individuals_length gs : forall t, List.length (individuals t gs) = List.length gs.
+Proof. induction gs as [|g gs IH]; intros t; cbn; auto. Qed.
+Lemma m_def_le_mu F : m_def F <= mu F.
+Proof.
+  induction F as [a|f IH|c l IHl r IHr|q vs f IH]; cbn [m_def mu]; try lia.
+  destruct a as [| |p ts|t gs]; cbn [m_def_atomic mu_atomic]; try lia.
+  pose proof (filter_length_le' def_eq (individuals t gs)) as L. rewrite individuals_length in L.
+  unfold mu_chain. destruct gs; cbn [List.length] in *; lia.
+Qed.
+Lemma m_scope_le_mu2 F : m_scope F <= mu F * mu F.
+Proof.
+  induction F as [a|f IH|c l IHl r IHr|q vs f IH]; cbn [m_scope mu].
+  - lia.
+  - etransitivity; [exact IH|apply Nat.mul_le_mono; lia].
+  - pose proof (m_qn_le_mu l). pose proof (m_qn_le_mu r).
+    assert (mu_conn c >= 1) by (destruct c; cbn; lia).
+    set (a := mu l) in *. set (b := mu r) in *. set (w := mu_conn c) in *.
+    assert ((1 + a + b) * (1 + a + b) <= (w + a + b) * (w + a + b)) by (apply Nat.mul_le_mono; lia).
+    nia.
+  - etransitivity; [exact IH|apply Nat.mul_le_mono; lia].
+Qed.
+
+Lemma radix_step R a b c d : c < R -> (a < b \/ (a = b /\ c < d)) -> a * R + c < b * R + d.
+Proof.
+  intros Hc [H|[-> H]]; [|lia].
+  assert (S a * R <= b * R) by (apply Nat.mul_le_mono_r; lia). rewrite Nat.mul_succ_l in *. lia.
+Qed.
+
+Lemma cls_lt_mu_le G F : cls_lt G F -> mu G <= mu F.
+Proof. unfold cls_lt, lex5. lia. Qed.
+
+Lemma cls_rank_lt N G F : mu F <= N -> cls_lt G F -> cls_rank N G < cls_rank N F.
+Proof.
+  intros HN H. pose proof (cls_lt_mu_le _ _ H) as Hmu.
+  pose proof (m_gen_le_mu G). pose proof (m_qn_le_mu G). pose proof (m_def_le_mu G).
+  pose proof (m_scope_le_mu2 G) as Hs.
+  assert (Hs' : m_scope G < S (N * N)).
+  { assert (mu G * mu G <= N * N) by (apply Nat.mul_le_mono; lia). lia. }
+  unfold cls_rank. unfold cls_lt, lex5 in H.
+  destruct H as [H|[E1 [H|[E2 [H|[E3 [H|[E4 H]]]]]]]].
+  - apply radix_step; [lia|left]. apply radix_step; [lia|left]. apply radix_step; [lia|left].
+    apply radix_step; [lia|left]. exact H.
+  - apply radix_step; [lia|left]. apply radix_step; [lia|left]. apply radix_step; [lia|left].
+    apply radix_step; [lia|right]. split; assumption.
+  - apply radix_step; [lia|left]. apply radix_step; [lia|left].
+    apply radix_step; [lia|right]. split; [rewrite E1, E2; reflexivity|assumption].
+  - apply radix_step; [lia|left].
+    apply radix_step; [lia|right]. split; [rewrite E1, E2, E3; reflexivity|assumption].
+  - apply radix_step; [lia|right]. split; [rewrite E1, E2, E3, E4; reflexivity|assumption].
+Qed.
+
+(* ------------------------------------------------------------------------------ the loop *)
+Lemma apply_fixpoint_from_cls_total r (Hr : cls_dec (apply r)) N fuel : forall previous current,
+  mu current <= N -> cls_rank N current < fuel ->
+  exists G, apply_fixpoint_from fuel r previous current = Some G.
+Proof.
+  induction fuel as [|n IH]; intros previous current HN Hlt; [lia|].
+  cbn. destruct (formula_eqb previous current); [eauto|].
+  destruct (Hr current) as [Heq|Hdec].
+  - rewrite Heq. exists current. destruct n; cbn; destruct (formula_eqb_spec current current); congruence.
+  - apply IH.
+    + pose proof (cls_lt_mu_le _ _ Hdec). lia.
+    + pose proof (cls_rank_lt N _ _ HN Hdec). lia.
+Qed.
+
+Theorem apply_fixpoint_cls_total rs F :
+  Forall cls_dec rs -> exists G, apply_fixpoint (classic_fuel F) (compose rs) F = Some G.
+Proof.
+  intros Hrs. pose proof (pass_cls_dec rs Hrs) as Ha.
+  unfold apply_fixpoint, classic_fuel. apply (apply_fixpoint_from_cls_total _ Ha (mu F)).
+  - destruct (Ha F) as [->|Hlt]; [lia|apply cls_lt_mu_le, Hlt].
+  - destruct (Ha F) as [->|Hlt]; [lia|]. pose proof (cls_rank_lt (mu F) _ _ (le_n _) Hlt). lia.
+Qed.
+
+(* ---------- statements used by Properties/C18cls.v ---------- *)
+Theorem cls_pass_decreasing : forall F,
+  apply (compose portfolio_classic) F = F \/ cls_lt (apply (compose portfolio_classic) F) F.
+Proof. apply pass_cls_dec, portfolio_classic_cls_dec. Qed.
+
+Theorem cls_only_pass_decreasing : forall F,
+  apply (compose CLASSIC) F = F \/ cls_lt (apply (compose CLASSIC) F) F.
+Proof. apply pass_cls_dec, CLASSIC_cls_dec. Qed.
+
+Theorem cls_fixpoint_terminates_fuel : forall F,
+  exists G, apply_fixpoint (classic_fuel F) (compose portfolio_classic) F = Some G.
+Proof. intros F. apply apply_fixpoint_cls_total, portfolio_classic_cls_dec. Qed.
+
+Theorem cls_fixpoint_terminates : forall F,
+  exists fuel G, apply_fixpoint fuel (compose (INTUITIONISTIC ++ HT ++ CLASSIC)) F = Some G.
+Proof. intros F. exists (classic_fuel F). apply cls_fixpoint_terminates_fuel. Qed.
+
+Theorem cls_only_fixpoint_terminates : forall F,
+  exists G, apply_fixpoint (classic_fuel F) (compose CLASSIC) F = Some G.
+Proof. intros F. apply apply_fixpoint_cls_total, CLASSIC_cls_dec. Qed.
+
+(* more fuel never hurts: the loop returns the same formula *)
+Lemma apply_fixpoint_from_more r : forall fuel previous current G,
+  apply_fixpoint_from fuel r previous current = Some G ->
+  forall fuel', fuel <= fuel' -> apply_fixpoint_from fuel' r previous current = Some G.
+Proof.
+  induction fuel as [|n IH]; intros previous current G H fuel' Hle.
+  - cbn in H. destruct (formula_eqb previous current) eqn:E; [|discriminate].
+    destruct fuel'; cbn; rewrite E; exact H.
+  - destruct fuel' as [|m]; [lia|]. cbn in *. destruct (formula_eqb previous current); [exact H|].
+    apply (IH _ _ _ H). lia.
+Qed.
+Theorem cls_fixpoint_terminates_any : forall F fuel, classic_fuel F <= fuel ->
+  exists G, apply_fixpoint fuel (compose portfolio_classic) F = Some G.
+Proof.
+  intros F fuel Hle. destruct (cls_fixpoint_terminates_fuel F) as [G HG]. exists G.
+  unfold apply_fixpoint in *. eapply apply_fixpoint_from_more; eauto.
+Qed.
